@@ -215,15 +215,32 @@ class Run:
 _TMP = None
 
 
-def run(firmware, dev, device_id='28e9:0189'):
-    """run the real cli_main against `dev`"""
+def run(firmware, dev, device_id='28e9:0189', via_fifo=False):
+    """run the real cli_main against `dev`; via_fifo: the firmware path is a named pipe fed by a writer thread"""
     global _TMP
     dfu = load_dfu()
     if _TMP is None:
         _TMP = tempfile.mkdtemp(prefix='bbv-dfu-')
     path = os.path.join(_TMP, 'fw-%d.bin' % os.getpid())
-    with open(path, 'wb') as f:
-        f.write(firmware)
+    writer = None
+    if via_fifo:
+        import threading
+        path = os.path.join(_TMP, 'fw-%d.fifo' % os.getpid())
+        if os.path.exists(path):
+            os.unlink(path)
+        os.mkfifo(path)
+
+        def feed():
+            try:
+                with open(path, 'wb') as f:
+                    f.write(firmware)
+            except OSError:
+                pass
+        writer = threading.Thread(target=feed, daemon=True)
+        writer.start()
+    else:
+        with open(path, 'wb') as f:
+            f.write(firmware)
     sys.modules['usb.core'].find = lambda **kw: dev
     clock = types.SimpleNamespace(sleep=dev.sleep, time=lambda: dev.now)
     dfu.time = clock
@@ -248,6 +265,18 @@ def run(firmware, dev, device_id='28e9:0189'):
         r.code = 1
     finally:
         sys.argv = old_argv
+        if writer is not None:
+            # the tool may refuse without ever opening the pipe: unblock the writer, then drop the pipe
+            try:
+                fd = os.open(path, os.O_RDONLY | os.O_NONBLOCK)
+                os.close(fd)
+            except OSError:
+                pass
+            writer.join(timeout=5)
+            try:
+                os.unlink(path)
+            except OSError:
+                pass
     r.stdout = buf.getvalue()
     r.done_printed = 'done!' in r.stdout
     return r
